@@ -5,12 +5,14 @@ monkeypatching (clock, cryptography backend when scripted, item index); nothing
 in /repo is edited.
 """
 import copy
+import json
 import logging
 import os
 import shutil
 import tempfile
 import types
 import warnings
+import zlib
 
 warnings.filterwarnings("ignore")
 
@@ -665,6 +667,7 @@ class ImplEngine(object):
         self.engine = None
         self._scripts = []
         self._item = -1
+        self.wire_door = 0
         self.internal_errors = []
         self._open()
 
@@ -745,9 +748,15 @@ class ImplEngine(object):
             # holds - attribute indices, template names - so a decoded copy would not be the request the model is given)
             msg = None
             req_b, smuggled = _substitute_empty(req) if req["version"] < 20 else (req, False)
-            if smuggled:
-                # empty text strings reach the server through the DECODER (read() assigns fields directly), not
-                # through constructors: encode with placeholders, empty them in the bytes, decode as the session does
+            ops = [it.get("op") for it in req["items"]]
+            wire = smuggled or ("locate" in ops and (req["version"] < 20 or all(o == "locate" for o in ops))) \
+                or (req["version"] < 20 and zlib.crc32(json.dumps(req, sort_keys=True, default=str).encode()) % 3 == 0)
+            used_wire = False
+            if wire:
+                # the WIRE door: the request is encoded and decoded again as the session would (read() builds the
+                # payload fields itself - e.g. the filter list of Locate - and assigns empty text strings directly,
+                # which no constructor would accept): encode with placeholders, empty them in the bytes, decode
+                self.wire_door += 1
                 try:
                     v = req["version"]
                     kv = contents.protocol_version_to_kmip_version(version_obj(v)) or enums.KMIPVersion.KMIP_1_2
@@ -757,8 +766,10 @@ class ImplEngine(object):
                     msg = messages.RequestMessage()
                     dv = contents.protocol_version_to_kmip_version(self.engine.default_protocol_version)
                     msg.read(utils.BytearrayStream(raw), kmip_version=dv)
+                    used_wire = True
                 except Exception:
                     msg = None              # not encodable / decodable as a whole: the object door decides
+                    self.wire_door -= 1
             if msg is None:
                 msg = build_request(req)
         except Exception as e:
@@ -812,10 +823,10 @@ class ImplEngine(object):
             enc_err = {"exc": type(e).__name__, "msg": str(e)[:200], "items": bad,
                        "site": "%s:%s" % (os.path.basename(fr[-1].filename), fr[-1].name) if fr else "?"}
         if enc_err is not None:
-            return {"results": out, "_version": hv.major * 10 + hv.minor, "_encode_error": enc_err,
+            return {"results": out, "_version": hv.major * 10 + hv.minor, "_encode_error": enc_err, "_wire": used_wire,
                     "_batch_count": resp.response_header.batch_count.value,
                     "_has_timestamp": resp.response_header.time_stamp is not None}
-        return {"results": out, "_version": hv.major * 10 + hv.minor,
+        return {"results": out, "_version": hv.major * 10 + hv.minor, "_wire": used_wire,
                 "_batch_count": resp.response_header.batch_count.value,
                 "_has_timestamp": resp.response_header.time_stamp is not None}
 
